@@ -172,7 +172,26 @@ Example C05_qname_accepts_guard_nonvacuous :
 Proof. exact qname_accepts_guard_nonvacuous. Qed.
 Print Assumptions C05_qname_accepts_guard_nonvacuous.
 
-(* full round trip is false: one witness per guard clause *)
+(* is_uri accepts every plain ASCII namespace name, '-' included (false before repo
+   fix 7c20cbc, where the xsi namespace was the refutation witness) *)
+Theorem C05_is_uri_accepts_plain : forall u, spec_uri_plain u = true -> is_uri (Some u) = true.
+Proof. exact is_uri_accepts_plain. Qed.
+Print Assumptions C05_is_uri_accepts_plain.
+
+Theorem C05_qname_roundtrip_clark_plain : forall u local,
+  spec_uri_plain u = true -> is_ncname local = true ->
+  qname_deser (qname_text (Some u) local) None = Some (qname_text (Some u) local)
+  /\ qname_ser (qname_text (Some u) local) None = Some (qname_text (Some u) local, None).
+Proof. exact qname_roundtrip_clark_plain. Qed.
+Print Assumptions C05_qname_roundtrip_clark_plain.
+
+Example C05_is_uri_accepts_xsi :
+  spec_uri_plain [104;116;116;112;58;47;47;119;119;119;46;119;51;46;111;114;103;47;50;48;48;49;47;88;77;76;83;99;104;101;109;97;45;105;110;115;116;97;110;99;101]%N = true.
+Proof. exact is_uri_accepts_xsi. Qed.
+Print Assumptions C05_is_uri_accepts_xsi.
+
+(* full round trip is false: one witness per remaining guard clause
+   (clark_uri_ok: is_uri knows ASCII URI references only; the witness is an IRI) *)
 Theorem C05_qname_roundtrip_clark_refuted :
   exists u local, is_ncname local = true /\
     forall s m', qname_ser (qname_text (Some u) local) None = Some (s, m') -> qname_deser s m' = None.
